@@ -209,9 +209,17 @@ def finEnt (d : Db) (keep : Bool) (cts : Nat) (e : Ent) : Ent :=
   let e := if keep then { e with emeta := setBit e.emeta bitTxn } else e
   d.lsmForm e
 
-/-- the entries a commit writes, in write order -/
+/-- the entries a commit writes, in write order: `duplicateWrites` first, then `pendingWrites`
+    (the order of `commitAndSend` since the fix of finding F8) -/
 def commitEntries (d : Db) (t : TxnM) (cts : Nat) : List Ent :=
-  (t.pending ++ t.dups).map (finEnt d (keepTogetherOf t) cts)
+  (t.dups ++ t.pending).map (finEnt d (keepTogetherOf t) cts)
+
+theorem mem_commitEntries {d : Db} {t : TxnM} {cts : Nat} {x : Ent} :
+    x ∈ commitEntries d t cts ↔ ∃ e ∈ t.pending ++ t.dups, x = finEnt d (keepTogetherOf t) cts e := by
+  simp only [commitEntries, List.mem_map, List.mem_append]
+  constructor
+  · rintro ⟨e, he, rfl⟩; exact ⟨e, he.symm, rfl⟩
+  · rintro ⟨e, he, rfl⟩; exact ⟨e, he.symm, rfl⟩
 
 /-- the guard under which `commit` reaches the write path -/
 def commitGoes (d : Db) (t : TxnM) (mts : Nat) : Bool :=
@@ -231,7 +239,7 @@ def commitApply (d : Db) (t : TxnM) (id mts : Nat) : Db × CommitRes :=
   let cts := if d2.opts.managed then mts else d2.nextTs
   let d3 := if d2.opts.managed then d2 else { d2 with nextTs := d2.nextTs + 1 }
   let d4 := if d3.opts.detectConflicts then { d3 with committed := (cts, t1.writes) :: d3.committed } else d3
-  let entries := (t1.pending ++ t1.dups).map (finEnt d4 (keepTogetherOf t) cts)
+  let entries := (t1.dups ++ t1.pending).map (finEnt d4 (keepTogetherOf t) cts)
   let d5 := { d4 with lsm := { d4.lsm with mem := entries.foldl (fun m e => memPut e m) d4.lsm.mem } }
   ((d5.setTxn t1).discardTxn id, .ok cts)
 
